@@ -175,6 +175,20 @@ impl Shred {
     }
 }
 
+#[cfg(feature = "verif-hooks")]
+impl Shred {
+    /// Verification hook: `(slot, slice index, shred index)` this shred claims.
+    #[must_use]
+    pub fn verif_position(&self) -> (crate::Slot, usize, usize) {
+        let payload = self.payload();
+        (
+            payload.header.slot,
+            payload.header.slice_index.inner(),
+            *payload.shred_index,
+        )
+    }
+}
+
 /// Base payload of a shred, regardless of its type.
 #[derive(Clone, Debug, SchemaRead, SchemaWrite)]
 pub struct ShredPayload {
